@@ -77,6 +77,10 @@ class C11(Prop):
         pumps = [l for l in scn['links'] if l['type'] == 'pump']
         if pumps and rng.chance(0.3):
             gen.add_simple_time_controls(rng, scn, 1, targets=pumps)
+        if rng.chance(0.2):
+            # report steps the simulator has to adjust for itself: smaller than the hydraulic step, or larger but not a multiple of it
+            hyd_ = scn['options']['hyd_step']
+            scn['options']['report_step'] = int(rng.pick([hyd_ // 2, hyd_ * 3 // 2, hyd_ // 3]))
         n = rng.irange(3, 7)
         hist = ['wntr']
         for _ in range(n - 1):
